@@ -142,7 +142,7 @@ def net_dump(doc):
                 insts.append([num(i.id), num(i.location.x), num(i.location.y), num(i.location.z)])
             e = [p.id, p.component, num(p.size), p.type, insts]
             if hasattr(p.instances, "indices"):
-                e.append(sorted([k, int(v)] for k, v in p.instances.indices.items()))
+                e.append({"indices": sorted([k, int(v)] for k, v in p.instances.indices.items())})
             pops.append(e)
         projs = []
         for pr in n.projections:
@@ -151,7 +151,7 @@ def net_dump(doc):
             e = [pr.id, pr.presynaptic_population, pr.postsynaptic_population, pr.synapse, cs, wds]
             for lst in (pr.connections, pr.connection_wds):
                 if hasattr(lst, "indices"):
-                    e.append(sorted([k, int(v)] for k, v in lst.indices.items()))
+                    e.append({"indices": sorted([k, int(v)] for k, v in lst.indices.items())})
             projs.append(e)
         eps = []
         for ep in n.electrical_projections:
@@ -166,7 +166,7 @@ def net_dump(doc):
                  [[num(i.id), i.target] for i in il.input],
                  [[num(i.id), i.target, num(i.weight)] for i in getattr(il, "input_ws", [])]]
             if hasattr(il.input, "indices"):
-                e.append(sorted([k, int(v)] for k, v in il.input.indices.items()))
+                e.append({"indices": sorted([k, int(v)] for k, v in il.input.indices.items())})
             ils.append(e)
         out.append({"id": n.id, "pops": pops, "projs": projs, "eprojs": eps, "ilists": ils})
     return out
@@ -220,6 +220,7 @@ def run_call(d, c):
         else:
             raise ValueError("unknown entry point " + ep)
         res["items"], res["includes"] = doc_items(doc)
+        res["meta"] = [s(getattr(doc, "id", None)), s(getattr(doc, "notes", None))]
         res["nets"] = net_dump(doc)
         if handler_doc is not None:
             hi, _ = doc_items(handler_doc)
